@@ -29,7 +29,10 @@ Inductive query :=
 
 Definition vostr := vopt VStr.
 Definition voref := vopt vref.
-Definition vostrs := vopt vstrs.
+(* expand_all / expand_pair_all: "the canonical URI first, then one per URI-prefix synonym": the order among the synonyms is not
+   part of any statement, so it is normalised (first element kept, the rest sorted) on both sides of every comparison *)
+Definition norm_all (l : list str) : list str := match l with [] => [] | x :: r => x :: sort_str r end.
+Definition vostrs := vopt (fun l => vstrs (norm_all l)).
 
 Definition answer (c : conv) (q : query) : val :=
   match q with
